@@ -101,15 +101,23 @@ theorem argsOf_wrapped (name : Text) (fs : List (Text × Val)) : argsOf .wrapped
 theorem response_fidelity_any_style (cfg : Cfg) (hP : cfg.parseXsiType = true) (I : Iface) (hI : ifaceWf I = true)
     (style : Style) (outName : Text) (outMsg : Ty) (ht : tyWf outMsg = true)
     (hw : style.outWrapped = true → isObjTy outMsg = true) (rets : List Val)
-    (hok : okOneX I cfg.polymorphic cfg.soft outMsg (respValue style outMsg rets) = true)
-    (hfit : fitsV facts08 (respValue style outMsg rets) = true) :
-    ∃ e, responseNodes facts08 cfg I style outName outMsg rets = [e] ∧
-      decode facts08 factsXml cfg I outMsg e = .ok (normOneX I outMsg (respValue style outMsg rets)) :=
-  response_rt (rtCtx cfg hP I hI) style outName outMsg ht hw rets hok hfit
+    (hok : okOneX I cfg.polymorphic cfg.soft outMsg (respValue factsSoap style outMsg rets) = true)
+    (hfit : fitsV facts08 (respValue factsSoap style outMsg rets) = true) :
+    ∃ e, responseNodes facts08 factsSoap cfg I style outName outMsg rets = [e] ∧
+      decode facts08 factsXml cfg I outMsg e = .ok (normOneX I outMsg (respValue factsSoap style outMsg rets)) :=
+  response_rt (rtCtx cfg hP I hI) factsSoap style outName outMsg ht hw rets hok hfit
+
+/-- a method that is not wrapped and returns nothing answers with the empty element of its member-less response
+    class (switch `bareNothingIsEmptyElement`), which is what the receiver reads back -/
+theorem bare_nothing_is_the_empty_response (cfg : Cfg) (I : Iface) (style : Style) (hs : style.outWrapped = false)
+    (outName name ns : Text) (b : Option Text) (o : Occ) :
+    responseNodes facts08 factsSoap cfg I style outName (.obj name ns b [] o) [] = [.elem I.tns outName [] none []] := by
+  have h : factsSoap.bareNothingIsEmptyElement = true := by decide
+  simp [responseNodes, hs, bareReturn, h, toParent, polyTarget, membersToParent]
 
 /-- multiple return values: the i-th return value is the i-th member of the response object -/
 theorem multiple_returns_in_order (name ns : Text) (b : Option Text) (k1 k2 : Text) (t1 t2 : Ty) (o : Occ) (r1 r2 : Val) :
-    respValue .wrapped (.obj name ns b [(k1, t1), (k2, t2)] o) [r1, r2] = .obj name [(k1, r1), (k2, r2)] := rfl
+    respValue factsSoap .wrapped (.obj name ns b [(k1, t1), (k2, t2)] o) [r1, r2] = .obj name [(k1, r1), (k2, r2)] := rfl
 
 /-! ### the Spyne client -/
 
@@ -136,11 +144,11 @@ theorem client_call_fidelity (cfg : Cfg) (hP : cfg.parseXsiType = true) (I : Ifa
     (∃ e, encode facts08 cfg I I.tns name inMsg (requestObject factsClient inMsg args kwargs) = [e] ∧
       Soap.xmlServerDecode facts08 factsXml cfg I ms e =
         .ok (clark I.tns name, normOneX I inMsg (requestObject factsClient inMsg args kwargs))) ∧
-    (∃ e', responseNodes facts08 cfg I .wrapped outName outMsg rets = [e'] ∧
+    (∃ e', responseNodes facts08 factsSoap cfg I .wrapped outName outMsg rets = [e'] ∧
       (decode facts08 factsXml cfg I outMsg e').map (unwrap outMsg) =
         .ok (unwrap outMsg (normOneX I outMsg (outObject outMsg rets)))) := by
   refine ⟨xml_server_rt (rtCtx cfg hP I hI) ms name inMsg hti hm _ hok hfit, ?_⟩
-  obtain ⟨e', he', hd'⟩ := response_rt (rtCtx cfg hP I hI) .wrapped outName outMsg hto (fun _ => hio) rets
+  obtain ⟨e', he', hd'⟩ := response_rt (rtCtx cfg hP I hI) factsSoap .wrapped outName outMsg hto (fun _ => hio) rets
     (by simpa [respValue, Style.outWrapped] using hrok) (by simpa [respValue, Style.outWrapped] using hrfit)
   refine ⟨e', he', ?_⟩
   rw [decode, hd']
